@@ -46,6 +46,16 @@ class HomogeneousTransform(InvertibleParametricTransform, LinearTransform):
         r"""Get shape of transformation parameters tensor."""
         return Size((self.ndim, self.ndim + 1))
 
+    @torch.no_grad()
+    def reset_parameters(self: HomogeneousTransform) -> None:
+        r"""Reset transformation parameters to the identity matrix ``[I | 0]``."""
+        super().reset_parameters()
+        params = self.params
+        if callable(params):
+            params = self.p
+        if isinstance(params, Tensor):
+            params.diagonal(dim1=-2, dim2=-1).fill_(1)
+
     def matrix_(self: HomogeneousTransform, arg: Tensor) -> HomogeneousTransform:
         r"""Set transformation matrix."""
         if not isinstance(arg, Tensor):
